@@ -45,9 +45,11 @@ def create_lstm_model(vocab_size: int = 86,
     Model.
   """
   # TODO(jaero): Replace these with direct references from dataset.
+  # Same label layout as fedjax.datasets.shakespeare: PAD/BOS/EOS come first,
+  # then the vocab_size characters, then OOV.
   pad = 0
-  bos = vocab_size + 1
-  eos = vocab_size + 2
+  bos = 1
+  eos = 2
   oov = vocab_size + 3
   full_vocab_size = vocab_size + 4
   # We do not guess EOS, and if we guess OOV, it's treated as a mistake.
